@@ -77,6 +77,10 @@ func withCallEnv(ci ssa.CallInstruction, callee *ssa.Function, f func()) {
 	for k, v := range old {
 		env[k] = v
 	}
+	// the arguments are rendered one level down already: an argument that is itself the (looked-through) result of
+	// the same helper, e.g. acc = helper(x, acc) in a loop, must run into the depth bound instead of recursing
+	liftDepth++
+	defer func() { paramEnv = old; liftDepth-- }()
 	args := callArgs(ci)
 	for i, p := range callee.Params {
 		if i < len(args) {
@@ -84,8 +88,6 @@ func withCallEnv(ci ssa.CallInstruction, callee *ssa.Function, f func()) {
 		}
 	}
 	paramEnv = env
-	liftDepth++
-	defer func() { paramEnv = old; liftDepth-- }()
 	f()
 }
 
